@@ -129,6 +129,9 @@ structure SplitPacket where
   payload : Bytes
   deriving Repr, DecidableEq
 
+def readIf (c : Bool) (p : Par α) : Par (Option α) :=
+  if c then do let v ← p; pure (some v) else pure none
+
 /-- `SplitPacket::new` -/
 def splitPacketNew (engine : Engine) (protocol : Nat) : Par SplitPacket := do
   let header ← readUnsigned .little 4
@@ -142,13 +145,12 @@ def splitPacketNew (engine : Engine) (protocol : Nat) : Par SplitPacket := do
   | .source _ => do
     let total ← readU8
     let number ← readU8
-    let size ← if protocol == 7 && engine == Engine.new 240 then pure 1248 else readUnsigned .little 2
+    let size ← (if protocol == 7 && engine == Engine.new 240 then pure 1248 else readUnsigned .little 2 : Par Nat)
     let isCompressed := (id >>> 31) &&& 1 == 1
-    let decompressed ← if isCompressed && number == 0 then do
+    let decompressed ← readIf (isCompressed && number == 0) (do
         let a ← readUnsigned .little 4
         let b ← readUnsigned .little 4
-        pure (some (a, b))
-      else pure none
+        pure (a, b))
     let payload ← remainingBytes
     pure ⟨header, id, total, number, size, decompressed, payload⟩
 
@@ -265,9 +267,6 @@ def goldServerType (st : Nat) : Res ServerType :=
 def goldEnvironment (et : Nat) : Res Environment :=
   match et with
   | 76 => .ok .linux | 87 => .ok .windows | _ => .err .unknownEnumCast
-
-def readIf (c : Bool) (p : Par α) : Par (Option α) :=
-  if c then do let v ← p; pure (some v) else pure none
 
 def parseModData : Par ModData := do
   let link ← readCStr
